@@ -745,6 +745,60 @@ def _flat_ops(rv):
     return out
 
 
+def prune_emptied(chk, F, rule):
+    """R08h: when remove() filters an inner collection (a value reached through get_mut / values_mut / iter_mut of a map) it must then test
+    that collection for emptiness (and drop the key): consumers ask `map.get(k).is_some()` / `is_none()` to decide whether anything is
+    registered, so an emptied list left behind reads as "still there"."""
+    import cfgutil as _c
+    import dataflow as _d
+    idx = index_types(F)
+
+    def inner_value(b, op, depth=0):
+        l = _d.operand_local(op)
+        if l is None or depth > 6:
+            return False
+        for r in _d.roots(b, l):
+            if r[0] == "call":
+                c = b.blocks[r[1]][2][1]
+                n = _cname(c)
+                if n.endswith(("::get_mut", "::values_mut", "::iter_mut")):
+                    return True
+                if n.endswith(("::next", "Try>::branch", "::unwrap", "DerefMut>::deref_mut", "IntoIterator>::into_iter", "::by_ref")) and c["a"] and \
+                        inner_value(b, c["a"][0], depth + 1):
+                    return True
+            if r[0] == "place" and r[2] and isinstance(r[2][0], (list, tuple)) and r[2][0][0] == "d" and r[2][0][1] in ("Some", "Continue"):
+                if inner_value(b, ["c", [r[1]]], depth + 1):
+                    return True
+        return False
+
+    def rk(b, op):
+        l = _d.operand_local(op)
+        return frozenset(_d.roots(b, l)) if l is not None else frozenset()
+    n = 0
+    for X, items in sorted(idx.items()):
+        b = F.bodies.get(items.get("remove", ""))
+        if b is None or X == DBINDEX:
+            continue
+        succ = b.succ_map()
+        k = 0
+        for bb, c in b.calls():
+            if not _cname(c).endswith("::retain") or not c["a"] or not inner_value(b, c["a"][0]):
+                continue
+            n += 1
+            k += 1
+            key = "%s::remove:retain#%d" % (short(X), k)
+            root = rk(b, c["a"][0])
+            after = _c.reachable(succ, bb)
+            emp = [x for x, cc in b.calls() if _cname(cc).endswith("::is_empty") and cc["a"] and rk(b, cc["a"][0]) == root and x in after]
+            pruned = any(any(_cname(cc).endswith("::remove") and y in _c.reachable(succ, x) for y, cc in b.calls()) for x in emp)
+            chk.check(bool(emp) and pruned, rule, key,
+                      "%s::remove filters an inner collection with retain and never tests it for emptiness afterwards (no is_empty on it followed by a "
+                      "removal of the key): an emptied list stays in the map, and code that asks whether the key is present (`get(..).is_some()`) "
+                      "takes the removed file's contribution for still being there" % short(X), b.loc(c["l"]),
+                      sample={"rule": rule, "site": key, "verdict": "emptied entries are pruned"})
+    return n
+
+
 def run_c08(chk, F, tier):
     chk.rule("R08a", "for every impl LuaIndex for X: fields written by any &mut-self method of X are written by "
                      "`remove` or exempt (id allocators, configuration mirrors; table in rules/idx.py)")
@@ -778,6 +832,9 @@ def run_c08(chk, F, tier):
     chk.rule("R08f", "inserts into a map that remove() finds through a per-file reverse map register in that reverse map on every non-failing path")
     n = reverse_map_complete(chk, F, "R08f")
     chk.floor("reverse-map/driven-map pairs", n, 9)
+    chk.rule("R08h", "remove() prunes the map entries whose inner collection it emptied")
+    n = prune_emptied(chk, F, "R08h")
+    chk.floor("inner-collection retains in remove()", n, 2)
     chk.rule("R08g", "no insert key of an index is computed from the size of a container that remove() shrinks")
     n = fresh_ids(chk, F, ws, "R08g")
     chk.floor("index methods with keyed inserts", n, 20)
@@ -876,6 +933,7 @@ def run_c10(chk, F, tier):
     file_keyed_unconditional(chk, F, "R08d")
     infiled_filtered(chk, F, "R08e")
     reverse_map_complete(chk, F, "R08f")
+    prune_emptied(chk, F, "R08h")
     n = remove_file_rule(chk, F, ws, "R10")
     chk.floor("Vfs fields with writers", n, 6)
     chk.explanation = ("Removal coverage (write sets), delegation (must-pass-through) and the Vfs removal path.")
